@@ -40,6 +40,9 @@ pub struct Registry {
     /// builder L: statements the unit keeps abstract: (needle in the statement's source, Lean function,
     /// expressions read, variables written)
     pub abstract_stmts: Vec<(String, String, Vec<String>, Vec<String>)>,
+    /// builder O: I/O mode (PHY command encoders, phyio.rs): `Result`-returning functions become actions of
+    /// `Rt.Phy.IoM`
+    pub io: std::cell::RefCell<crate::phyio::IoCtx>,
 }
 
 pub fn int_ty(name: &str) -> Option<&'static str> {
@@ -93,8 +96,8 @@ pub struct FnTr<'a> {
     pub tparams: HashMap<String, Ty>,
 }
 
-type Env = HashMap<String, Ty>;
-type Stmts = Vec<(String, Rhs)>;
+pub(crate) type Env = HashMap<String, Ty>;
+pub(crate) type Stmts = Vec<(String, Rhs)>;
 
 fn path_str(p: &Path) -> String {
     p.segments.iter().map(|s| s.ident.to_string()).collect::<Vec<_>>().join("::")
@@ -153,6 +156,15 @@ impl<'a> FnTr<'a> {
                 if name == "bool" {
                     return Ok(Ty::Bool);
                 }
+                // builder O: `Result<T, RadioError>` (I/O mode)
+                if name == "Result" {
+                    if let PathArguments::AngleBracketed(ab) = &last.arguments {
+                        if let Some(GenericArgument::Type(inner)) = ab.args.first() {
+                            return Ok(Ty::Res(Box::new(self.ty(inner)?)));
+                        }
+                    }
+                    return Err("bad Result".into());
+                }
                 if let Some(a) = self.reg.aliases.get(&name) {
                     return Ok(a.clone());
                 }
@@ -190,13 +202,15 @@ impl<'a> FnTr<'a> {
         }
     }
 
-    fn fresh(&mut self) -> String {
+    pub(crate) fn fresh(&mut self) -> String {
         self.counter += 1;
         format!("t{}", self.counter)
     }
 
-    fn act(&mut self, st: &mut Stmts, term: String) -> String {
+    pub(crate) fn act(&mut self, st: &mut Stmts, term: String) -> String {
         let n = self.fresh();
+        // builder O: in I/O mode a checked primitive is lifted into the I/O monad
+        let term = if self.reg.io.borrow().mode { format!("Rt.Phy.ofOpt ({})", term) } else { term };
         st.push((n.clone(), Rhs::Act(term)));
         n
     }
@@ -235,7 +249,7 @@ impl<'a> FnTr<'a> {
                     let init = l.init.as_ref().ok_or("let without init")?;
                     // `let PAT = e?;` on an Option in an Option-returning function is
                     // `let Some(PAT) = e else { return None; };`
-                    if init.diverge.is_none() {
+                    if init.diverge.is_none() && !self.reg.io.borrow().mode {
                         if let Expr::Try(t) = &*init.expr {
                             let inner = &t.expr;
                             let pat = match &l.pat {
@@ -271,6 +285,28 @@ impl<'a> FnTr<'a> {
                         Pat::Type(pt) => Some(self.ty(&pt.ty)?),
                         _ => None,
                     };
+                    // builder O: `let [a, b] = <array>;` — the elements by checked index
+                    if let Pat::Slice(ps) = &l.pat {
+                        let (term, ty) = self.ex(&init.expr, env, &mut st, None)?;
+                        let el = match ty {
+                            Ty::Arr(el) => *el,
+                            _ => return Err("slice pattern on a non-array".into()),
+                        };
+                        let tmp = self.fresh();
+                        st.push((tmp.clone(), Rhs::Pure(term)));
+                        for (k, p) in ps.elems.iter().enumerate() {
+                            match p {
+                                Pat::Ident(i) => {
+                                    let v = self.act(&mut st, format!("Rt.idx {} {}", tmp, k));
+                                    env.insert(i.ident.to_string(), el.clone());
+                                    st.push((lean_ident(&i.ident.to_string()), Rhs::Pure(v)));
+                                }
+                                Pat::Wild(_) => {}
+                                _ => return Err("unsupported slice pattern element".into()),
+                            }
+                        }
+                        continue;
+                    }
                     let (term, ty) = self.ex(&init.expr, env, &mut st, expect.clone())?;
                     let ty = match (&ty, &expect) {
                         (Ty::IntLit, Some(e)) => e.clone(),
@@ -312,6 +348,15 @@ impl<'a> FnTr<'a> {
                         return Ok(Seq { stmts: st, tail });
                     }
                     match e {
+                        // builder O (I/O mode): `action?;` / `action.await?;` as a statement
+                        Expr::Try(_) if self.reg.io.borrow().mode => {
+                            let _ = self.ex(e, env, &mut st, None)?;
+                        }
+                        // builder O (I/O mode): statement-level `if` / `match` whose branches perform I/O, assign
+                        // outer variables or leave with `return Err(..)` (= throw: valid in any position)
+                        Expr::If(_) | Expr::Match(_) if self.reg.io.borrow().mode && !crate::phyio::returns_ok(e) => {
+                            crate::phyio::stmt_branch(self, e, env, &mut st)?;
+                        }
                         Expr::Return(r) => {
                             let e = match r.expr.as_ref() {
                                 Some(e) => e,
@@ -477,7 +522,7 @@ impl<'a> FnTr<'a> {
         Ok(Seq { stmts: st, tail: Tail::Val("()".into()) })
     }
 
-    fn phi_if(&mut self, ei: &ExprIf, env: &mut Env, st: &mut Stmts, vars: &[String]) -> Res<Tail> {
+    pub(crate) fn phi_if(&mut self, ei: &ExprIf, env: &mut Env, st: &mut Stmts, vars: &[String]) -> Res<Tail> {
         if !self.muts.is_empty() || has_let(&ei.cond) {
             // builder L: `if let` / let chains, branches in statement mode
             let tuple = tuple_of(vars);
@@ -530,7 +575,7 @@ impl<'a> FnTr<'a> {
 
     /// builder L: a branch of a statement-level `if`/`match` (no `return` inside): its lets, ending in the
     /// tuple of the variables the statement may assign
-    fn phi_branch(&mut self, stmts: &[Stmt], env: &mut Env, tuple: &str) -> Res<Seq> {
+    pub(crate) fn phi_branch(&mut self, stmts: &[Stmt], env: &mut Env, tuple: &str) -> Res<Seq> {
         let saved = std::mem::replace(&mut self.ret, Ty::Unit);
         let saved_muts = self.muts.clone();
         if self.muts.is_empty() {
@@ -544,6 +589,11 @@ impl<'a> FnTr<'a> {
         match &s.tail {
             Tail::Val(v) if v == "()" => {
                 s.tail = Tail::Val(tuple.to_string());
+                Ok(s)
+            }
+            // builder O (I/O mode): leaves that throw (`return Err(..)`) stay, unit leaves get the tuple
+            _ if self.reg.io.borrow().mode => {
+                crate::phyio::retarget(&mut s, tuple)?;
                 Ok(s)
             }
             _ => Err("a branch of a statement-level if/match leaves the function or has a value".into()),
@@ -695,7 +745,9 @@ impl<'a> FnTr<'a> {
             return Err(format!("recursive method {}", key));
         }
         let files = self.reg.files.clone().ok_or(format!("unknown method {}", key))?;
-        let (sig, body) = find_inherent_method(&files, tn, name).ok_or(format!("unknown method {}", key))?;
+        let (sig, body) = find_inherent_method(&files, tn, name)
+            .or_else(|| if self.reg.io.borrow().mode { crate::phyio::find_trait_method(&files, tn, name) } else { None })
+            .ok_or(format!("unknown method {}", key))?;
         self.reg.dyn_stack.borrow_mut().push(key.clone());
         let lean_name = format!("{}.{}", tn, name);
         let mut sub = FnTr {
@@ -874,6 +926,10 @@ impl<'a> FnTr<'a> {
 
     /// Translate a whole function; returns Lean text and the signature.
     pub fn function(&mut self, sig: &Signature, body: &Block, lean_name: &str) -> Res<(String, FnSig)> {
+        // builder O (I/O mode): `-> Result<_, RadioError>` functions are actions of `Rt.Phy.IoM`
+        if self.reg.io.borrow().mode && crate::phyio::is_io_fn(sig) {
+            return crate::phyio::function_io(self, sig, body, lean_name);
+        }
         let mut env: Env = HashMap::new();
         let mut params = vec![];
         self.muts = vec![];
@@ -1040,6 +1096,11 @@ impl<'a> FnTr<'a> {
             (Ty::IntLit, Some(t)) => t.clone(),
             _ => ty,
         };
+        // builder O (I/O mode): a `Result` in tail position is the action itself
+        if matches!(ty, Ty::Res(_)) && self.reg.io.borrow().mode {
+            crate::phyio::check_no_pending(self)?;
+            return Ok((Tail::ActVal(term), ty));
+        }
         Ok((Tail::Val(term), ty))
     }
 
@@ -1110,7 +1171,7 @@ impl<'a> FnTr<'a> {
         Ok((t, ty))
     }
 
-    fn pat(&mut self, p: &Pat, ty: &Ty, env: &mut Env) -> Res<String> {
+    pub(crate) fn pat(&mut self, p: &Pat, ty: &Ty, env: &mut Env) -> Res<String> {
         match p {
             Pat::Ident(i) if i.ident == "None" => Ok("none".into()),
             Pat::Ident(i) => {
@@ -1452,6 +1513,9 @@ impl<'a> FnTr<'a> {
                 _ => Err("unsupported literal".into()),
             },
             Expr::Paren(p) => self.ex(&p.expr, env, st, expect),
+            // builder O: `.await` is transparent; `?` binds a `Result` action (I/O mode)
+            Expr::Await(a) => self.ex(&a.base, env, st, expect),
+            Expr::Try(t) if self.reg.io.borrow().mode => crate::phyio::try_expr(self, t, env, st),
             Expr::Group(g) => self.ex(&g.expr, env, st, expect),
             Expr::Reference(r) => self.ex(&r.expr, env, st, expect),
             Expr::Unary(u) => match u.op {
@@ -1586,7 +1650,8 @@ impl<'a> FnTr<'a> {
                 for (e, ex) in t.elems.iter().zip(exps) {
                     let (a, ta) = self.ex(e, env, st, ex)?;
                     terms.push(a);
-                    tys.push(if ta == Ty::IntLit { Ty::Int("i32") } else { ta });
+                    // builder O (I/O mode): an untyped literal component stays open (`(0x00, txp + 4)` against `(u8, i32)`)
+                    tys.push(if ta == Ty::IntLit && !self.reg.io.borrow().mode { Ty::Int("i32") } else { ta });
                 }
                 Ok((format!("({})", terms.join(", ")), Ty::Tuple(tys)))
             }
@@ -1689,6 +1754,9 @@ impl<'a> FnTr<'a> {
         };
         let segs: Vec<String> = p.segments.iter().map(|s| s.ident.to_string()).collect();
         let name = segs.join("::");
+        if (name == "Ok" || name == "Err") && self.reg.io.borrow().mode {
+            return crate::phyio::ok_err(self, &name, c, env, st, expect);
+        }
         if name == "Some" {
             let inner = match &expect {
                 Some(Ty::Opt(t)) => Some((**t).clone()),
@@ -1769,6 +1837,11 @@ impl<'a> FnTr<'a> {
             self.local_fns.get(&segs[0]).cloned().or_else(|| self.reg.fns.get(&segs[0]).cloned())
         } else {
             let tyn = if segs[segs.len() - 2] == "Self" { self.self_ty.clone().unwrap_or_default() } else { segs[segs.len() - 2].clone() };
+            // builder O: a generic parameter the unit fixes (`C::set_tx_power(..)` with `Alias("C", "Sx1276")`)
+            let tyn = match self.reg.aliases.get(&tyn) {
+                Some(Ty::Named(n)) => n.clone(),
+                _ => tyn,
+            };
             self.reg.fns.get(&format!("{}::{}", tyn, segs[segs.len() - 1])).cloned()
         };
         let sig = sig.ok_or(format!("call of unknown function {}", name))?;
@@ -1791,6 +1864,12 @@ impl<'a> FnTr<'a> {
 
     fn method(&mut self, m: &ExprMethodCall, env: &mut Env, st: &mut Stmts, expect: Option<Ty>) -> Res<(String, Ty)> {
         let name = m.method.to_string();
+        // builder O (I/O mode): calls on `self.intf` / `self.intf.iv` are the primitives of `Rt.Phy`
+        if self.reg.io.borrow().mode {
+            if let Some(r) = crate::phyio::intf_call(self, m, env, st)? {
+                return Ok(r);
+            }
+        }
         // builder J: `(a..=b).contains(&x)` / `(a..b).contains(&x)` on integer ranges (band limits,
         // margin range).  A range is no value in the IR, so this is decided before the receiver is
         // translated.
@@ -1880,6 +1959,8 @@ impl<'a> FnTr<'a> {
                         Ok((format!("(Rt.ck .{} ({} {} {}))", t, paren(&r), o, a), Ty::Opt(Box::new(ity))))
                     }
                     "abs" => Ok((self.act(st, format!("Rt.ck .{} (Int.natAbs {} : Int)", t, paren(&r))), ity)),
+                    // builder O: big-endian bytes of an unsigned integer
+                    "to_be_bytes" if !t.starts_with('i') => Ok((format!("(Rt.Phy.beBytes .{} {})", t, paren(&r)), Ty::Arr(Box::new(Ty::Int("u8"))))),
                     // builder L: unsigned `is_multiple_of` (never panics: `x.is_multiple_of(0)` is `x == 0`)
                     "is_multiple_of" if !t.starts_with('i') => {
                         let a = arg(self, 0, st, Some(ity.clone()))?;
@@ -2045,6 +2126,7 @@ fn unify(a: &Ty, b: &Ty) -> Res<Ty> {
         (Ty::IntLit, Ty::Int(_)) => Ok(b.clone()),
         (Ty::Int(_), Ty::IntLit) => Ok(a.clone()),
         (Ty::Opt(x), Ty::Opt(y)) => Ok(Ty::Opt(Box::new(unify(x, y)?))),
+        (Ty::Tuple(xs), Ty::Tuple(ys)) if xs.len() == ys.len() => Ok(Ty::Tuple(xs.iter().zip(ys.iter()).map(|(x, y)| unify(x, y)).collect::<Res<Vec<_>>>()?)),
         _ if a == b => Ok(a.clone()),
         _ => Err(format!("type mismatch {:?} vs {:?}", a, b)),
     }
